@@ -185,7 +185,7 @@ Definition run_scope_e2e_am (l : list Z) : list Z :=
   | ARun a =>
       let ls := rev (alog a) in
       1 :: len ls :: map zn (canon label_eqb ls)
-        ++ map (fun t => match t with LPend _ _ => 1 | LDecl _ _ => 0 end) (reps_aux label_eqb [] ls)
+        ++ map (fun t => match t with LPend _ _ => 1 | LDecl _ _ => 0 | LArg _ _ => 2 end) (reps_aux label_eqb [] ls)
         ++ [if core_x (prog_of l) then 1 else 0]
   | ARej => [0]
   | AStuck => [-3]
